@@ -86,6 +86,11 @@ MEMBERS = {
     "global_read": (["gr = G + a"], ["K.gr"]),
     "closure_method": (["def outerm(self):", "    t = a", "    def inner():", "        nonlocal t", "        t += b", "        return t", "    return inner()"], ["K().outerm()"]),
     "docstring": (["'''doc'''", "dz = a"], ["K.dz"]),
+    # private names (two leading underscores): mangled to _K__name inside the class body and its methods
+    "private_attr": (["__pv = a", "def getp(self):", "    return (self.__pv, K.__pv)"], ["K().getp()", "sorted(k for k in vars(K) if k.endswith('__pv'))", "Sub().getp()", "K._K__pv"]),
+    "private_method": (["def __hm(self, v, __q=1):", "    return v + a + __q", "def callp(self):", "    def inner():", "        return self.__hm(b)", "    return (inner(), (lambda: self.__hm(0))())"], ["K().callp()", "hasattr(K, '_K__hm')", "hasattr(K, '__hm')"]),
+    "private_instance_attr": (["def setiv(self):", "    self.__iv = a", "    return self", "def giv(self):", "    return (self.__iv, self._K__iv, sorted(vars(self)))"], ["K().setiv().giv()"]),
+    "private_nested_class": (["class __In:", "    __y = b", "    def gy(self):", "        return self.__y", "def mkin(self):", "    return self.__In().gy()"], ["K().mkin()", "K._K__In.__name__", "sorted(k for k in vars(K._K__In) if k.endswith('__y'))"]),
     # hooks that Python wraps implicitly (only if they are plain functions when the class is created)
     "class_getitem": (["def __class_getitem__(cls, item):", "    return (cls.__name__, item, a)"], ["K[b]", "Sub[1]"]),
     "class_getitem_explicit_cm": (["@classmethod", "def __class_getitem__(cls, item):", "    return (cls.__name__, item)"], ["K[a]", "Sub[b]"]),
